@@ -1,8 +1,154 @@
-/- Driver handlers for area `sign` (stub: replace `handle`). -/
-import VDriver.Util
-namespace V.Driver.SignOps
-open V V.Driver
+/- Driver handlers for area `sign` (C02): SignJSON / VerifyJSON / ListKeyIDs with symbolic cryptography.
 
-def handle (_op : String) (_args : Array String) : Option String := none
+   The scheme the driver instantiates the model with is an ORACLE scheme: the op line lists the facts
+   "these signature bytes were made with the key whose public half is pk over payload P"; `verify pk m s`
+   holds iff (s, pk, m) is one of the facts.  Signing returns a fixed 64-byte marker (the harness
+   replaces the real ed25519 signature in SignJSON's output by the same marker before comparing).
+
+   ops:
+     sign   <label> <hex text> <hex name> <hex kid> <key index>
+            -> ok:<hex canonical output, signature = marker>:<hex payload>:<VerifyJSON verdict on the output> | err | panic:…
+     verify <label> <hex text> <hex name> <hex kid> <hex pk> <facts> <expect>   -> verdict class (model only)
+     accept <label> <hex text> <hex name> <hex kid> <hex pk> <facts> <expect>   -> ok | rej  (+ specification)
+     list   <label> <hex text> <hex name>                                       -> ok:<sorted hex key IDs> | err
+-/
+import VDriver.Util
+import VModel.Sign
+namespace V.Driver.SignOps
+open V V.Json V.Driver V.Sign
+
+def marker : Bytes := List.replicate 64 0xFF
+def dummyPk : Bytes := List.replicate 32 0x01
+
+def oracleScheme (facts : List (Bytes × Bytes × Bytes)) : SigScheme :=
+  { SK := Unit
+    pk := fun _ => dummyPk
+    sign := fun _ _ => marker
+    verify := fun pk m s => facts.any (fun f => f.1 == s && f.2.1 == pk && f.2.2 == m)
+    sigSizeOk := fun s => s.length == 64
+    pkSizeOk := fun k => k.length == 32 }
+
+/-- "sig:pk:payload,sig:pk:payload" (hex) -/
+def parseFacts (s : String) : Option (List (Bytes × Bytes × Bytes)) :=
+  if s == "-" || s == "" then some [] else
+  (s.splitOn ",").mapM (fun f =>
+    match f.splitOn ":" with
+    | [a, b, c] =>
+      match unhex a, unhex b, unhex c with
+      | some x, some y, some z => some (x, y, z)
+      | _, _, _ => none
+    | _ => none)
+
+def showVerdict : Except Err Unit → String
+  | .ok _ => "ok"
+  | .error e => showErr e
+
+def coarse : Except Err Unit → String
+  | .ok _ => "ok"
+  | .error (.panic s) => "panic:" ++ s
+  | .error _ => "rej"
+
+/-- the value a text denotes, or why it is outside the modelled domain -/
+def readValue (t : Bytes) : Except String (Option JVal) :=
+  match parse t with
+  | none => .ok none
+  | some p =>
+    if !p.noDupKeys then .error "skip:dupkeys (sjson deletes the first duplicate, Go maps keep the last)"
+    else if !p.wellFormed then .error "skip:ill-formed-unicode (invalid UTF-8 / lone surrogates: Go replaces, CompactJSON drops)"
+    else .ok (some p.toJVal)
+
+def insertSorted (x : String) : List String → List String
+  | [] => [x]
+  | y :: ys => if x < y then x :: y :: ys else y :: insertSorted x ys
+
+def sortStrings (xs : List String) : List String := xs.foldr insertSorted []
+
+def showKeys (ks : List Bytes) : String :=
+  let hs := sortStrings (ks.map hex)
+  "ok:" ++ (if hs.isEmpty then "-" else String.intercalate "," hs)
+
+def handle (op : String) (args : Array String) : Option String :=
+  match op, args.toList with
+  | "sign", [_label, th, nh, kh, _key] =>
+    match unhex th, unhex nh, unhex kh with
+    | some t, some name, some kid =>
+      match readValue t with
+      | .error why => some why
+      | .ok none => some "err"
+      | .ok (some v) =>
+        let pay : Bytes := match v with
+          | .obj o => payload o
+          | _ => encodeCanon v
+        let S := oracleScheme [(marker, dummyPk, pay)]
+        let res := signJSON S name kid () v
+        let m := match res with
+          | .ok out => "ok:" ++ hex (encodeCanon out) ++ ":" ++ hex pay ++ ":" ++ showVerdict (verifyJSON S name kid dummyPk out)
+          | .error (.panic s) => "panic:" ++ s
+          | .error _ => "err"
+        -- specification: what C02 demands of the signed object (only when signing is not refused)
+        let s := match v, res with
+          | .obj _, .error (.other _) => "unspecified:signing-refused"
+          | .obj _, .error .badJSON => "unspecified:signing-refused"
+          | .obj _, _ =>
+            match Spec.signJSON S name kid () v with
+            | some out => "ok:" ++ hex (encodeCanon out) ++ ":" ++ hex pay ++ ":ok"
+            | none => "unspecified:signatures-not-a-signature-map"
+          | _, _ => "unspecified:not-an-object"
+        some (m ++ "\t" ++ s)
+    | _, _, _ => some "bad-op"
+  | "verify", [_label, th, nh, kh, pkh, fs, _expect] =>
+    match unhex th, unhex nh, unhex kh, unhex pkh, parseFacts fs with
+    | some t, some name, some kid, some pk, some facts =>
+      match readValue t with
+      | .error why => some why
+      | .ok none => some "err:json"
+      | .ok (some v) => some (showVerdict (verifyJSON (oracleScheme facts) name kid pk v))
+    | _, _, _, _, _ => some "bad-op"
+  | "accept", [_label, th, nh, kh, pkh, fs, expect] =>
+    match unhex th, unhex nh, unhex kh, unhex pkh, parseFacts fs with
+    | some t, some name, some kid, some pk, some facts =>
+      match readValue t with
+      | .error why => some why
+      | .ok none => some "rej\trej"
+      | .ok (some v) =>
+        let S := oracleScheme facts
+        let m := coarse (verifyJSON S name kid pk v)
+        let a := Spec.accepts S name kid pk v
+        let wf := match v with
+          | .obj o => Spec.wellFormedSigs (getLast o kSignatures)
+          | _ => false
+        -- the property demands rejection whenever there is no valid signature of (name, kid, pk) over the
+        -- payload, and acceptance when there is one and `signatures` is a well-formed signature object
+        let s :=
+          if expect == "ok" then (if a && wf then "ok" else "spec-mismatch:generator-expects-ok")
+          else if expect == "rej" then (if !a then "rej" else "spec-mismatch:generator-expects-rej")
+          else if !a then "rej" else if wf then "ok" else "unspecified:signatures-not-a-signature-map"
+        some (m ++ "\t" ++ s)
+    | _, _, _, _, _ => some "bad-op"
+  | "list", [_label, th, nh] =>
+    match unhex th, unhex nh with
+    | some t, some name =>
+      match readValue t with
+      | .error why => some why
+      | .ok none => some "err"
+      | .ok (some v) =>
+        let m := match listKeyIDs name v with
+          | some ks => showKeys ks
+          | none => "err"
+        let s := match v with
+          | .obj o =>
+            match getLast o kSignatures with
+              | none => showKeys []
+              | some .null => showKeys []
+              | some (.obj ms) =>
+                if !(ms.all (fun x => match x.2 with | .null => true | .obj _ => true | _ => false)) then "unspecified:signatures-not-a-map-of-maps"
+                else match getLast ms name with
+                  | some (.obj es) => showKeys (es.map (·.1))
+                  | _ => showKeys []
+              | some _ => "unspecified:signatures-not-a-map"
+          | _ => "unspecified:not-an-object"
+        some (m ++ "\t" ++ s)
+    | _, _ => some "bad-op"
+  | _, _ => none
 
 end V.Driver.SignOps
